@@ -19,7 +19,7 @@ O == <<111>>
 F == <<102>>
 Pn == <<112>>  \* p
 KindNames == <<"null", "bool", "int", "string", "list", "object", "func", "builtin">>
-KIdx == 1 .. 8
+KIdx == 1 .. 13      \* the 8 kinds, then "", [], {}, 0, false (values that tempt a fast path)
 
 \* one literal expression per kind (the user function `f` is declared first)
 Ex(i) == CASE i = 1 -> ENull
@@ -30,6 +30,11 @@ Ex(i) == CASE i = 1 -> ENull
            [] i = 6 -> EObj(<<Pair(EStr(<<97>>), EInt(1))>>)
            [] i = 7 -> EVar(F)
            [] i = 8 -> EVar(N_print)
+           [] i = 9 -> EStr(<<>>)
+           [] i = 10 -> EList(<<>>)
+           [] i = 11 -> EObj(<<>>)
+           [] i = 12 -> EInt(0)
+           [] i = 13 -> EBool(FALSE)
 
 OpList == <<"+", "-", "*", "/", "%", "&&", "||", "==", "!=", "<", "<=", ">", ">=", "===", "!==">>
 AssignOps == {"+", "-", "*", "/", "%"}
@@ -124,9 +129,11 @@ InDomain(op, ka, kb) ==
 
 \* exemplar values over a small constant heap
 ExHeap == <<CList(<<Slot(VInt(1))>>), CObj((<<97>> :> Slot(VInt(1)))),
-            CFn(SomeName(F), <<>>, FALSE, <<>>, <<1>>)>>
+            CFn(SomeName(F), <<>>, FALSE, <<>>, <<1>>), CList(<<>>), CObj(<<>>)>>
 ExVal(i) == CASE i = 1 -> VNull [] i = 2 -> VBool(TRUE) [] i = 3 -> VInt(3) [] i = 4 -> VStr(<<115>>)
               [] i = 5 -> VList(1) [] i = 6 -> VObj(2) [] i = 7 -> VFn(3) [] i = 8 -> VBuiltin(N_print)
+              [] i = 9 -> VStr(<<>>) [] i = 10 -> VList(4) [] i = 11 -> VObj(5) [] i = 12 -> VInt(0)
+              [] i = 13 -> VBool(FALSE)
 
 TypeNamesOk == \A i \in KIdx : TypeName(ExVal(i)) \in {"null", "bool", "int", "string", "list", "object", "func"}
 
